@@ -480,3 +480,28 @@ Definition sf_oracle (isvoid : bool) (ops obs : list (list Z)) : bool :=
       Z.eqb r (match mode s0 with MPre _ => 0 | _ => 1 end) && lines_ok (expected isvoid ops) (users s0) 2 rest
   | _ => false
   end.
+
+(* ---------- free-running stress engine (harness/stress_shared.cpp) ----------
+   op [7; rounds; mode; rkind; dropkind]: in every round two threads drop the last two handles of a pending state at the same
+   time and the state is resolved afterwards.  One round is the model configuration "creator, resolver, two droppers"; by
+   c17_freed_exactly_once the result of a round does not depend on the schedule, so the prediction for any number of rounds is
+   the result of one modelled round: [7; every thread finished and the state was freed exactly once; live payloads; leaks]. *)
+Definition stress_valid (l : list Z) : bool :=
+  match l with
+  | [7; n; m; k; d] => (0 <=? n) && (0 <=? m) && (m <=? 3) && (0 <=? k) && (k <=? 2) && (0 <=? d) && (d <=? 2)
+  | _ => false
+  end.
+Definition stress_ops (l : list Z) : list (list Z) :=
+  match l with
+  | [7; n; m; k; d] => [[0; m; 0]; [1; k; 1]; [2; 0; 0]; [2; 0; 0]]
+  | _ => []
+  end.
+Definition stress_round (l : list Z) : list (list Z) :=
+  if stress_valid l then
+    let s := fst (final_state (stress_ops l)) in
+    [[7; b2z (match stuck_list s with [] => Nat.eqb (freed s) 1 | _ => false end);
+      Z.of_nat (pctor s) - Z.of_nat (pdtor s); 0]]
+  else [].
+Definition sf_stress_run (ops : list (list Z)) : list (list Z) := flat_map stress_round ops.
+Definition sf_stress_oracle (ops obs : list (list Z)) : bool :=
+  Nat.eqb (length obs) (length (filter stress_valid ops)) && forallb (fun l => list_eqb l [7; 1; 0; 0]) obs.
